@@ -198,7 +198,7 @@ pub fn judge(_part: &str, case: &Case, tally: &mut Tally) -> Verdict {
     judge_one(case, calls, &case.tail, tally)
 }
 
-fn gen_case(src: &mut Src, _i: usize) -> Case {
+pub fn gen_case(src: &mut Src, _i: usize) -> Case {
     let (cols, rows) = match src.below(10) {
         0 => (*src.pick(&[16usize, 24, 80]), src.range(2, 6)),
         _ => gen::small_size(src),
@@ -249,7 +249,7 @@ fn gen_case(src: &mut Src, _i: usize) -> Case {
     case
 }
 
-fn gen_short_all_cuts(src: &mut Src, _i: usize) -> Case {
+pub fn gen_short_all_cuts(src: &mut Src, _i: usize) -> Case {
     let (cols, rows) = gen::small_size(src);
     let g = G::new(cols, rows);
     let mut case = Case::new(cols, rows, None);
